@@ -6,7 +6,7 @@ mod scen;
 use core::check::{self, CheckDef, RunOpts};
 
 fn defs() -> Vec<&'static CheckDef> {
-    vec![&scen::c03::DEF, &scen::c04::DEF, &scen::c05::DEF, &scen::c27::DEF, &scen::c30::DEF, &scen::dl::C28, &scen::dl::C29, &scen::ws::DEF, &scen::mpsub::DEF, &scen::httpio::C23, &scen::httpio::C24, &scen::httpio::C12]
+    vec![&scen::c03::DEF, &scen::c04::DEF, &scen::c05::DEF, &scen::c27::DEF, &scen::c30::DEF, &scen::dl::C28, &scen::dl::C29, &scen::ws::DEF, &scen::mpsub::DEF, &scen::httpio::C23, &scen::httpio::C24, &scen::httpio::C12, &scen::apq::DEF]
 }
 
 fn usage() -> ! {
